@@ -590,6 +590,8 @@ structure O14 where
   lastGc : Option Int := none
   /-- the previous op was a `take` (a second one must come back empty) -/
   justTaken : Bool := false
+  /-- per slot: completed cycles in a row without a request to it or an event from it -/
+  idle : List Nat := []
   deriving Inhabited
 
 def lcOf (o : O14) (slot : Nat) : Nat := o.lc.getD slot 0
@@ -663,7 +665,7 @@ def oracle14 (b b' : Base) (seen : Seen) (views : List PView) (o : O14) : O14 ×
       -- events may have been overwritten: only resynchronise
       let lc' := (List.range c.ps.length).map fun i =>
         if liveOf views i then (if (viewOf views i).map (·.running) == some true then 2 else max 1 (lcOf o i)) else 0
-      ({ o with pos := none, visited := [], lc := lc' }, none)
+      ({ o with pos := none, visited := [], lc := lc', idle := [] }, none)
     else
     -- the event
     let r1 : O14 × Verdict :=
@@ -684,11 +686,17 @@ def oracle14 (b b' : Base) (seen : Seen) (views : List PView) (o : O14) : O14 ×
         s!"lifecycle / events_exact: slot {v.slot} is_live={b01 v.live} is_running={b01 v.running} but its events say state {lcOf o1 v.slot} (an event was lost or duplicated)"
     | none =>
     if cc then
-      let o2 := { o1 with pos := none, replied := false, visited := [] }
-      match views.find? (fun v => v.live && !o1.visited.contains v.slot &&
-          (match c.ps[v.slot]? with | some p => p.prm.isSome && p.cfg.isSome | none => false)) with
+      let idle' := (List.range c.ps.length).map fun i => if o1.visited.contains i then 0 else o1.idle.getD i 0 + 1
+      let o2 := { o1 with pos := none, replied := false, visited := [], idle := idle' }
+      let complete := fun (slot : Nat) => match c.ps[slot]? with | some p => p.prm.isSome && p.cfg.isSome | none => false
+      match views.find? (fun v => v.live && !o1.visited.contains v.slot && complete v.slot) with
       | some v => fail o2 s!"cycle_completed_once / turn_order: cycle reported complete but live slot {v.slot} had no turn"
-      | none => (o2, none)
+      | none =>
+        -- an offline peripheral is probed (an unanswered probe is not repeated in the same cycle, so
+        -- every second cycle at the latest); only a live peripheral lacking parameters / configuration waits
+        match views.find? (fun v => idle'.getD v.slot 0 ≥ 2 && !(v.live && !complete v.slot)) with
+        | some v => fail { o2 with idle := idle'.set v.slot 0 } s!"turn_order: slot {v.slot} had no turn (no request, no event) in two consecutive cycles"
+        | none => (o2, none)
     else (o1, none)
   | .broken what => fail o s!"turn_ends: {what}"
   | _ => ({ o with justTaken := false }, none)
